@@ -150,8 +150,8 @@ def splitBar : Str → List Str
 
 def capitalizePatterns : List Str := ["id".toList, "api".toList, "url".toList, "p2p".toList, "sha".toList, "srp".toList]
 
-/-- `goify(name, true)`; an empty word (where Go indexes `itemRunes[0]` and panics) is dropped — the
-harness generates no such names -/
+/-- `goify(name, true)`; an empty word (where Go indexes `itemRunes[0]` and panics) is dropped (since the D30 repair the Go code does the same);
+the generator's name pool has such names -/
 def goName (s : Str) : Str :=
   ((splitBar (delimit none s)).map fun w =>
     if capitalizePatterns.contains w then w.map toUp
